@@ -13,6 +13,7 @@
 # limitations under the License.
 """Symbolic dict."""
 
+import copy
 import typing
 from typing import Any, Callable, Iterable, Iterator, List, Optional, Sequence, Set, Tuple, Union
 
@@ -601,7 +602,10 @@ class Dict(dict, base.Symbolic, pg_typing.CustomTyping):
     allow_partial = base.accepts_partial(self)
     if field and pg_typing.MISSING_VALUE == value:
       # NOTE(daiyip): default value is already in transformed form.
-      value = field.default_value
+      # A copy is stored (as Schema.apply does), never the default object of
+      # the field itself: writing into the stored value must not change the
+      # default of the schema.
+      value = copy.deepcopy(field.default_value)
     else:
       value = base.from_json(
           value,
